@@ -89,9 +89,12 @@ pub struct VoiceOpts {
     /// rotation applied to the option list of the spectrum stream (the header may list the
     /// options in any order; voices of one set must agree, so this is part of the shape)
     pub opt_order: usize,
+    /// the trees of every stream model (and with them their PDF blocks) are written in
+    /// descending state order: a PDF block belongs to the tree at the same *position*
+    pub trees_reversed: bool,
 }
 
-pub const WINDOW_SETS: [&[&[f64]]; 6] = [
+pub const WINDOW_SETS: [&[&[f64]]; 8] = [
     &[&[1.0]],
     &[&[1.0], &[-0.5, 0.0, 0.5]],
     &[&[1.0], &[-0.5, 0.0, 0.5], &[1.0, -2.0, 1.0]],
@@ -99,6 +102,10 @@ pub const WINDOW_SETS: [&[&[f64]]; 6] = [
     &[&[1.0], &[-0.5, 0.0, 0.5], &[0.25, 0.0, -0.5, 0.0, 0.25]],
     // the widest window is not the last one
     &[&[1.0], &[-0.2, -0.1, 0.0, 0.1, 0.2], &[1.0, -2.0, 1.0]],
+    // every dynamic window is 5 taps wide with a zero centre tap: W'U^-1W then has entries that
+    // are exactly zero and fill in during the factorisation
+    &[&[1.0], &[-0.2, -0.1, 0.0, 0.1, 0.2]],
+    &[&[1.0], &[-0.2, -0.1, 0.0, 0.1, 0.2], &[0.25, 0.0, -0.5, 0.0, 0.25]],
 ];
 
 pub fn window_set(id: usize) -> Vec<Vec<f64>> {
@@ -115,8 +122,8 @@ impl VoiceOpts {
             ln_gain: rng.chance(0.5),
             mcp_len: rng.range(2, 10),
             lpf_len: 2 * rng.range(0, 7) + 1,
-            win_mcp: rng.below(6),
-            win_lf0: rng.below(6),
+            win_mcp: rng.below(8),
+            win_lf0: rng.below(8),
             gv_mcp: rng.chance(0.5),
             gv_lf0: rng.chance(0.5),
             rate: *rng.pick(&[8000usize, 16000, 22050, 44100, 48000]),
@@ -133,6 +140,7 @@ impl VoiceOpts {
             varying_regex_root: false,
             dur_leaves: if rng.chance(0.15) { Some(*rng.pick(&[10usize, 10, 13, 32, 9])) } else { None },
             opt_order: rng.below(6),
+            trees_reversed: rng.chance(0.25),
         }
     }
     /// small and fast: for interpreters (Miri) and exhaustive histories
@@ -162,14 +170,15 @@ impl VoiceOpts {
             varying_regex_root: false,
             dur_leaves: None,
             opt_order: 0,
+            trees_reversed: false,
         }
     }
     pub fn describe(&self) -> String {
         format!(
-            "streams={} nstate={} stage={} ln_gain={} mcp={} lpf={} win=({},{}) gv=({},{}) rate={} fp={} alpha={} depth={} transparent={} quote={} regex_root={} win_tight={} shuffle_nodes={}",
+            "streams={} nstate={} stage={} ln_gain={} mcp={} lpf={} win=({},{}) gv=({},{}) rate={} fp={} alpha={} depth={} transparent={} quote={} regex_root={} win_tight={} shuffle_nodes={} opt_order={} trees_reversed={}",
             self.nstreams, self.nstate, self.stage, self.ln_gain as u8, self.mcp_len, self.lpf_len,
             self.win_mcp, self.win_lf0, self.gv_mcp as u8, self.gv_lf0 as u8, self.rate, self.fperiod,
-            self.alpha, self.max_depth, self.transparent as u8, self.quote_mode, self.regex_root as u8, self.win_tight as u8, self.shuffle_nodes as u8
+            self.alpha, self.max_depth, self.transparent as u8, self.quote_mode, self.regex_root as u8, self.win_tight as u8, self.shuffle_nodes as u8, self.opt_order, self.trees_reversed as u8
         )
     }
 }
@@ -559,6 +568,15 @@ pub fn generate(opts: &VoiceOpts, pool: &QuestionPool, rng: &mut Rng) -> VoiceSp
             model: lpf_model,
             gv: None,
         });
+    }
+
+    if opts.trees_reversed {
+        for st in streams.iter_mut() {
+            if st.model.trees.len() > 1 {
+                st.model.trees.reverse();
+                st.model.pdfs.reverse();
+            }
+        }
     }
 
     VoiceSpec {
